@@ -180,7 +180,7 @@ fn continuations<K: KeyT, V: ValT>(mode: &str, w: &World<K, V>, spec: &RunSpec, 
                         v.extend(tail(6000 + k));
                         out.push(v);
                         for pred in [Pred::All, Pred::Mask(0x5eed ^ k as u64, 50), Pred::OldOnly] {
-                            let mut v = vec![Op::DrainFilter { m: 0, pred, mutate: if k % 2 == 0 { Some(1 << 24) } else { None }, consume: mk(k, forget) }];
+                            let mut v = vec![Op::DrainFilter { m: 0, pred, mutate: if k % 2 == 0 { Some(1 << 24) } else { None }, consume: mk(k, forget), drop_panic: if !forget && k % 3 == 1 { Some(1 + k % 2) } else { None } }];
                             v.extend(tail(7000 + k));
                             out.push(v);
                         }
